@@ -36,10 +36,31 @@ const (
 	mvSub    // the sub-string / sub-slice [n:m] of the argument
 )
 
+// affForm: an integer as an affine form co[0]*len + co[1]*arg1 + co[2]*arg2 + c0 of the
+// table's variables, valid along the path being followed (Abs and other branches are
+// resolved by the concrete values, so the form is the one of the executed path).
+type affForm struct {
+	ok bool
+	co [3]int64
+	c0 int64
+}
+
+func (a affForm) add(b affForm, sign int64) affForm {
+	if !a.ok || !b.ok {
+		return affForm{}
+	}
+	r := affForm{ok: true, c0: a.c0 + sign*b.c0}
+	for i := range r.co {
+		r.co[i] = a.co[i] + sign*b.co[i]
+	}
+	return r
+}
+
 type mv struct {
 	k      mvKind
 	n      int64
 	m      int64
+	af     affForm
 	b      bool
 	fields map[int]mv
 }
@@ -97,6 +118,18 @@ type miniEnv struct {
 	depth  int
 	// reads records the indices read from the slice argument, in order
 	reads *[]int64
+	// forms, when set, records the half-planes the run decided by: for every integer
+	// comparison, index and slice bound whose operands are affine in the table's
+	// variables, the normal (difference of the operands' coefficients) and the constant
+	forms map[[4]int64]bool
+}
+
+func (e miniEnv) record(l, r affForm) {
+	if e.forms == nil || !l.ok || !r.ok {
+		return
+	}
+	d := l.add(r, -1)
+	e.forms[[4]int64{d.co[0], d.co[1], d.co[2], d.c0}] = true
 }
 
 type miniOut struct {
@@ -141,7 +174,7 @@ func miniEval(fn *ssa.Function, args map[*ssa.Parameter]mv, env miniEnv) (miniOu
 			switch x.Value.Kind() {
 			case constant.Int:
 				n, exact := constant.Int64Val(x.Value)
-				return mv{k: mvInt, n: n}, exact
+				return mv{k: mvInt, n: n, af: affForm{ok: true, c0: n}}, exact
 			case constant.Bool:
 				return mv{k: mvBool, b: constant.BoolVal(x.Value)}, true
 			}
@@ -200,6 +233,8 @@ func miniEval(fn *ssa.Function, args map[*ssa.Parameter]mv, env miniEnv) (miniOu
 				if !ok || iv.k != mvInt {
 					return miniOut{}, false, "index is not an integer the table knows"
 				}
+				env.record(iv.af, affForm{ok: true})
+				env.record(iv.af, affForm{ok: true, co: [3]int64{1, 0, 0}})
 				if iv.n < 0 || iv.n >= env.length {
 					return miniOut{panics: true, why: fmt.Sprintf("index %d with length %d", iv.n, env.length)}, true, ""
 				}
@@ -261,7 +296,7 @@ func miniEval(fn *ssa.Function, args map[*ssa.Parameter]mv, env miniEnv) (miniOu
 					if !ok || o.k != mvInt {
 						return miniOut{}, false, "unary minus"
 					}
-					vals[x] = mv{k: mvInt, n: -o.n}
+					vals[x] = mv{k: mvInt, n: -o.n, af: affForm{ok: true}.add(o.af, -1)}
 				default:
 					return miniOut{}, false, "unary " + x.Op.String()
 				}
@@ -274,20 +309,26 @@ func miniEval(fn *ssa.Function, args map[*ssa.Parameter]mv, env miniEnv) (miniOu
 				if l.k == mvInt && r.k == mvInt {
 					switch x.Op {
 					case token.ADD:
-						vals[x] = mv{k: mvInt, n: l.n + r.n}
+						vals[x] = mv{k: mvInt, n: l.n + r.n, af: l.af.add(r.af, 1)}
 					case token.SUB:
-						vals[x] = mv{k: mvInt, n: l.n - r.n}
+						vals[x] = mv{k: mvInt, n: l.n - r.n, af: l.af.add(r.af, -1)}
 					case token.LSS:
+						env.record(l.af, r.af)
 						vals[x] = mv{k: mvBool, b: l.n < r.n}
 					case token.LEQ:
+						env.record(l.af, r.af)
 						vals[x] = mv{k: mvBool, b: l.n <= r.n}
 					case token.GTR:
+						env.record(l.af, r.af)
 						vals[x] = mv{k: mvBool, b: l.n > r.n}
 					case token.GEQ:
+						env.record(l.af, r.af)
 						vals[x] = mv{k: mvBool, b: l.n >= r.n}
 					case token.EQL:
+						env.record(l.af, r.af)
 						vals[x] = mv{k: mvBool, b: l.n == r.n}
 					case token.NEQ:
+						env.record(l.af, r.af)
 						vals[x] = mv{k: mvBool, b: l.n != r.n}
 					default:
 						return miniOut{}, false, "arithmetic " + x.Op.String() + " (the table covers +, - and comparisons only)"
@@ -344,6 +385,8 @@ func miniEval(fn *ssa.Function, args map[*ssa.Parameter]mv, env miniEnv) (miniOu
 						return miniOut{}, false, "slice bound is not an integer the table knows"
 					}
 					lo = v.n
+					env.record(v.af, affForm{ok: true})
+					env.record(v.af, affForm{ok: true, co: [3]int64{1, 0, 0}})
 				}
 				if x.High != nil {
 					v, ok := get(x.High)
@@ -351,6 +394,8 @@ func miniEval(fn *ssa.Function, args map[*ssa.Parameter]mv, env miniEnv) (miniOu
 						return miniOut{}, false, "slice bound is not an integer the table knows"
 					}
 					hi = v.n
+					env.record(v.af, affForm{ok: true})
+					env.record(v.af, affForm{ok: true, co: [3]int64{1, 0, 0}})
 				}
 				if lo < 0 || hi < lo || hi > env.length {
 					return miniOut{panics: true, why: fmt.Sprintf("slice bounds [%d:%d] with length %d", lo, hi, env.length)}, true, ""
@@ -365,7 +410,7 @@ func miniEval(fn *ssa.Function, args map[*ssa.Parameter]mv, env miniEnv) (miniOu
 			case *ssa.Call:
 				if bi, ok := x.Call.Value.(*ssa.Builtin); ok {
 					if bi.Name() == "len" && len(x.Call.Args) == 1 && x.Call.Args[0] == ssa.Value(env.slice) {
-						vals[x] = mv{k: mvInt, n: env.length}
+						vals[x] = mv{k: mvInt, n: env.length, af: affForm{ok: true, co: [3]int64{1, 0, 0}}}
 						continue
 					}
 					return miniOut{}, false, "builtin " + bi.Name()
@@ -466,4 +511,212 @@ func miniEval(fn *ssa.Function, args map[*ssa.Parameter]mv, env miniEnv) (miniOu
 		}
 	}
 	return miniOut{}, false, "did not terminate"
+}
+
+// boxNeeded: how large the table's box has to be for the half-planes the function (and
+// the statement) actually decide by. The planes a.x + c = 0 recorded during a first pass
+// form an arrangement; the statement and the implementation are affine on each of its
+// faces. Every face that contains an integer point is the sum of a bounded part spanned
+// by vertices of the arrangement and a cone spanned by directions of its lines of
+// intersection; V bounds the vertex coordinates, G the entries of the (primitive)
+// direction vectors, computed exactly from the recorded planes. A box that reaches
+// V + dims*G + 2 in every coordinate contains, for every face, a vertex-near integer
+// point plus one step along each of up to dims independent directions - enough integer
+// points to pin an affine function down on the face. (Still an argument rather than a
+// machine-checked proof - but its parameters are computed from the code, not assumed.)
+func boxNeeded(forms map[[4]int64]bool, dims int) (needL, needW int64) {
+	type plane struct {
+		n [3]int64
+		c int64
+	}
+	var ps []plane
+	for f := range forms {
+		if f[0] == 0 && f[1] == 0 && f[2] == 0 {
+			continue
+		}
+		ps = append(ps, plane{[3]int64{f[0], f[1], f[2]}, f[3]})
+	}
+	abs := func(x int64) int64 {
+		if x < 0 {
+			return -x
+		}
+		return x
+	}
+	gcd := func(a, b int64) int64 {
+		a, b = abs(a), abs(b)
+		for b != 0 {
+			a, b = b, a%b
+		}
+		return a
+	}
+	var vL, vW, gL, gW int64
+	bump := func(dst *int64, v int64) {
+		if v > *dst {
+			*dst = v
+		}
+	}
+	ceilDiv := func(num, den int64) int64 { // ceil(|num/den|)
+		num, den = abs(num), abs(den)
+		return (num + den - 1) / den
+	}
+	if dims == 2 {
+		for i := range ps {
+			a, b := ps[i].n[0], ps[i].n[1]
+			if g := gcd(a, b); g > 0 {
+				bump(&gL, abs(b)/g)
+				bump(&gW, abs(a)/g)
+			}
+			for j := i + 1; j < len(ps); j++ {
+				c, d := ps[j].n[0], ps[j].n[1]
+				det := a*d - b*c
+				if det == 0 {
+					continue
+				}
+				// a x + b y = -c1 ; c x + d y = -c2
+				r1, r2 := -ps[i].c, -ps[j].c
+				bump(&vL, ceilDiv(r1*d-b*r2, det))
+				bump(&vW, ceilDiv(a*r2-r1*c, det))
+			}
+		}
+		return vL + 2*gL + 2, vW + 2*gW + 2
+	}
+	cross := func(u, v [3]int64) [3]int64 {
+		return [3]int64{u[1]*v[2] - u[2]*v[1], u[2]*v[0] - u[0]*v[2], u[0]*v[1] - u[1]*v[0]}
+	}
+	for i := range ps {
+		for j := i + 1; j < len(ps); j++ {
+			d := cross(ps[i].n, ps[j].n)
+			g := gcd(gcd(d[0], d[1]), d[2])
+			if g == 0 {
+				continue
+			}
+			bump(&gL, abs(d[0])/g)
+			bump(&gW, abs(d[1])/g)
+			bump(&gW, abs(d[2])/g)
+			for k := j + 1; k < len(ps); k++ {
+				n3 := ps[k].n
+				det := d[0]*n3[0] + d[1]*n3[1] + d[2]*n3[2]
+				if det == 0 {
+					continue
+				}
+				// Cramer: x = (r1 (n2 x n3) + r2 (n3 x n1) + r3 (n1 x n2)) / det
+				r := [3]int64{-ps[i].c, -ps[j].c, -ps[k].c}
+				c23, c31 := cross(ps[j].n, n3), cross(n3, ps[i].n)
+				for q := 0; q < 3; q++ {
+					num := r[0]*c23[q] + r[1]*c31[q] + r[2]*d[q]
+					if q == 0 {
+						bump(&vL, ceilDiv(num, det))
+					} else {
+						bump(&vW, ceilDiv(num, det))
+					}
+				}
+			}
+		}
+	}
+	return vL + 3*gL + 2, vW + 3*gW + 2
+}
+
+// affTable: the common driver of the BD2 rules. It follows fn over a box of (len, int
+// arguments), first on the base box to learn which half-planes the code decides by
+// (recorded together with the statement's own planes), then - if boxNeeded asks for
+// more - on a box of the size those planes require. judge compares one outcome with the
+// statement and names the region of a disagreement.
+type affTable struct {
+	rule, name   string
+	fn           *ssa.Function
+	slice        *ssa.Parameter
+	ints         []*ssa.Parameter // one or two integer parameters
+	baseL, baseW int64
+	capL, capW   int64
+	stmtPlanes   [][4]int64
+	judge        func(L int64, a []int64, out miniOut, reads []int64) (ok bool, reason, region string)
+	call         func(L int64, a []int64) string // how to print the call
+}
+
+func runAffTable(c rc, t affTable) {
+	p := c.p
+	dims := 1 + len(t.ints)
+	eval := func(L int64, a []int64, forms map[[4]int64]bool) (miniOut, []int64, bool, string) {
+		args := map[*ssa.Parameter]mv{}
+		for i, prm := range t.ints {
+			af := affForm{ok: true}
+			af.co[1+i] = 1
+			args[prm] = mv{k: mvInt, n: a[i], af: af}
+		}
+		var reads []int64
+		out, ok, why := miniEval(t.fn, args, miniEnv{p: p, slice: t.slice, length: L, reads: &reads, forms: forms})
+		return out, reads, ok, why
+	}
+	sweep := func(maxL, w int64, visit func(L int64, a []int64) bool) bool {
+		a := make([]int64, len(t.ints))
+		var rec func(i int, L int64) bool
+		rec = func(i int, L int64) bool {
+			if i == len(t.ints) {
+				return visit(L, a)
+			}
+			for v := -w; v <= w; v++ {
+				a[i] = v
+				if !rec(i+1, L) {
+					return false
+				}
+			}
+			return true
+		}
+		for L := int64(0); L <= maxL; L++ {
+			if !rec(0, L) {
+				return false
+			}
+		}
+		return true
+	}
+	// pass 1: learn the planes
+	forms := map[[4]int64]bool{}
+	for _, pl := range t.stmtPlanes {
+		forms[pl] = true
+	}
+	undecided := ""
+	sweep(t.baseL, t.baseW, func(L int64, a []int64) bool {
+		_, _, ok, why := eval(L, a, forms)
+		if !ok {
+			undecided = why
+			return false
+		}
+		return true
+	})
+	if undecided != "" {
+		c.und(t.rule, t.name, "table", c.fpos(t.fn), t.name+" cannot be followed by the table's evaluator ("+undecided+")")
+		return
+	}
+	needL, needW := boxNeeded(forms, dims)
+	maxL, w := t.baseL, t.baseW
+	if needL > maxL {
+		maxL = needL
+	}
+	if needW > w {
+		w = needW
+	}
+	c.r.Obligation(t.rule, true, map[string]any{"rule": t.rule, "function": t.name, "object": "box sized from the half-planes the code and the statement decide by", "half_planes": len(forms), "box_len": maxL, "box_args": w})
+	if maxL > t.capL || w > t.capW {
+		c.und(t.rule, t.name, "table size", c.fpos(t.fn), fmt.Sprintf("the half-planes %s decides by need a table up to length %d and arguments up to %d in magnitude, more than this rule tabulates (%d, %d)", t.name, needL, needW, t.capL, t.capW))
+		return
+	}
+	reported := map[string]bool{}
+	sweep(maxL, w, func(L int64, a []int64) bool {
+		out, reads, ok, why := eval(L, a, nil)
+		if !ok {
+			c.und(t.rule, t.name, "table", c.fpos(t.fn), t.name+" cannot be followed by the table's evaluator ("+why+")")
+			return false
+		}
+		okV, reason, region := t.judge(L, a, out, reads)
+		smp := map[string]any{"rule": t.rule, "function": t.name, "len": L, "ok": okV}
+		for i := range a {
+			smp[fmt.Sprintf("arg%d", i+1)] = a[i]
+		}
+		c.r.Obligation(t.rule, okV, smp)
+		if !okV && !reported[region] && len(reported) < 8 {
+			reported[region] = true
+			c.r.Violation(coreDiag(t.rule, t.name, region, c.fpos(t.fn), t.call(L, a)+" "+reason))
+		}
+		return true
+	})
 }
